@@ -3038,14 +3038,15 @@ class Function(Term):
         engine_variables: dict[str, Scalar] = {}
         if self.engine:
             for variable in self.engine.variables:
-                engine_variables[variable.name] = variable.value
+                # like every other term: compute in the library's float type whatever the type of the value
+                engine_variables[variable.name] = scalar(variable.value)
 
             if "x" in engine_variables:
                 raise ValueError(
                     "variable 'x' is reserved for internal use of Function term, "
                     f"please rename the engine variable: {self.engine.variable('x')}"
                 )
-        engine_variables["x"] = x
+        engine_variables["x"] = scalar(x)
 
         overrides = self.variables.keys() & engine_variables.keys()
         if overrides:
